@@ -167,6 +167,9 @@ def run(ctx, rep):
     rep.floor("R03a", n, 2, "success sends to wait_for_acknowledgments waiters")
     n2 = oracle_definition(fx, rep)
     rep.floor("R03b", n2, 2, "writers of highest_acked_seq_num / callers of acked_changes_set")
+    hb = fx.fn("RtpsStatefulWriter", "on_acknack_submessage_received")
+    na = R.acknack_handler(hb, adder(rep, hb))
+    rep.floor("R01d", na, 4, "ACKNACK handler state updates (acknowledged = base - 1)")
     ng = R.periodic_heartbeat_solicits_ack(fx, rep, "R03e")
     rep.floor("R03e", ng, 3, "periodic heartbeat + reader must_send_acknacks sites")
     sites = removal_sites(fx, "UserDefinedDataWriter", "matched_subscription_list")
